@@ -7,12 +7,27 @@
     for batches whose trees have different root heights and different orders of the internal nodes, real TimeTreeModel
     with symbolic internal heights.  (a) cannot decide these branches: precision_matrix() ignores weights and durations
     (known finding), so every weighted / time-aware run of (a) ends in the same known signature;
+(a'') GMRFCovariate (built by its from_json; field, precision, covariates and effect sizes symbolic): density == quadratic form
+    of (field - covariates x beta) with the published precision matrix and == the intrinsic first-order GMRF density of that
+    residual, one value per sample for every way of batching the class documents (field [...,N], covariates [N,P] or
+    [...,N,P], beta [...,P] or shared);
 (b) GMRFGammaIntegrated() == closed form of the Gamma integral (symbolic shape / rate / field);
-(c) ConstantCoalescentIntegrated.log_prob == closed form of the inverse-gamma integral;
-(d) sufficient_statistics() of the piecewise-constant coalescents reproduce log_prob.
+(c) ConstantCoalescentIntegrated.log_prob == closed form of the inverse-gamma integral: alpha / beta as python floats, as
+    one-element tensors, through ConstantCoalescentIntegratedModel.from_json on a real TimeTreeModel, and for a batch of
+    two trees; stated once with lgamma (decides the lgamma arguments) and once lgamma-free as the rising factorial
+    alpha (alpha+1) .. (alpha+n-2) (connected to the implementation by instances of the Gamma recurrence only);
+(d) sufficient_statistics() of the piecewise-constant coalescents reproduce log_prob;
+(d') the same on exact ties (one symbol for a grid point and a sampling / coalescent time, for a sampling and a coalescent time,
+    for two grid points), for grids entirely beyond the root, and per interval against an event-list oracle (statistic of
+    interval k == int C(lineages,2) dt over it, count == number of coalescent events in it);
+(e) the consumer: the real GMRFPiecewiseCoalescentBlockUpdatingOperator (_step and __call__) runs on the real coalescent model
+    / GMRF wired like the CLI (theta = exp(field)); what it hands to its Newton iteration as (numCoalEv, wNative, gamma,
+    precision matrix) - the quantities its Gaussian proposal is built from - must reproduce the coalescent density, the
+    per-interval oracle and the GMRF density at the proposed precision, per sample of a batch.
 """
 from __future__ import annotations
 
+import functools
 import itertools
 import math
 import sys
@@ -465,6 +480,182 @@ def intended_replay(model, N, kind, rescale, variant, shape, hetero, vals, W):
     return False, 'agree'
 
 
+# ------------------------------------------------------------------ (a'') GMRFCovariate
+# GMRFCovariate(field, precision, covariates Z [N,P], beta [...,P]): the field minus Z beta is the intrinsic GMRF.  The class
+# forwards neither tree model nor weights to GMRF.__init__, so the plain variant is the only one it supports.
+COV_VARIANTS = {
+    # name: (batch size B or 'N' (= field length: the sample axis collides with the field axis), field batched,
+    #        precision batched, beta batched, covariates batched)
+    'single': (1, False, False, False, False),
+    'batch': (2, True, True, True, False),  # the documented batch shapes: field [B,N], covariates [N,P], beta [B,P]
+    'batch-covariates': (2, True, True, True, True),  # covariates [B,N,P]: first branch of the shape test in _call
+    'shared-beta': (2, True, True, False, False),  # fixed effect sizes, field / precision sampled
+    'shared-beta-square': ('N', True, True, False, False),  # same, as many samples as field entries
+    'shared-precision': (2, True, False, True, False),
+}
+COV_SIG = 'GMRFCovariate'
+
+
+def cov_names(N, P, variant):
+    B, fb, pb, bb, cb = COV_VARIANTS[variant]
+    B = N if B == 'N' else B
+    return {
+        'B': B,
+        'x': [[f'x{b}_{i}' for i in range(N)] for b in range(B if fb else 1)],
+        'tau': [f'tau{b}' for b in range(B if pb else 1)],
+        'beta': [[f'beta{b}_{p}' for p in range(P)] for b in range(B if bb else 1)],
+        'z': [[[f'z{b}_{i}_{p}' for p in range(P)] for i in range(N)] for b in range(B if cb else 1)],
+    }
+
+
+def cov_witness(N, P, variant):
+    nm = cov_names(N, P, variant)
+    W = {}
+    for b, r in enumerate(nm['x']):
+        W.update({k: 0.3 * i * i - 0.2 * b + 0.1 * (1 + b) * i + 0.1 for i, k in enumerate(r)})
+    for b, k in enumerate(nm['tau']):
+        W[k] = 1.7 + b
+    for b, r in enumerate(nm['beta']):
+        W.update({k: 0.4 - 0.7 * p + 0.15 * b for p, k in enumerate(r)})
+    for b, m in enumerate(nm['z']):
+        for i, r in enumerate(m):
+            W.update({k: 0.5 + 0.25 * i * (p + 1) - 0.35 * p + 0.1 * b for p, k in enumerate(r)})
+    return W
+
+
+def _cov_build(N, P, variant, json_list, tensors):
+    """the real class through its real from_json (covariates given as a nested list or as a Parameter), then the tensors
+    of its four parameters are replaced through the public setter.  tensors: dict x / tau / beta / z -> tensor"""
+    import torchtree.core.parameter  # noqa (registers Parameter)
+    from torchtree.distributions.gmrf import GMRFCovariate
+
+    zc = [[0.5 + i + 0.1 * p for p in range(P)] for i in range(N)]
+    data = {'id': 'gmrfcov', 'type': 'GMRFCovariate',
+            'field': {'id': 'field', 'type': 'Parameter', 'tensor': [0.1 * i for i in range(N)]},
+            'precision': {'id': 'prec', 'type': 'Parameter', 'tensor': [1.5]},
+            'covariates': zc if json_list else {'id': 'covariates', 'type': 'Parameter', 'tensor': zc},
+            'beta': {'id': 'beta', 'type': 'Parameter', 'tensor': [0.2] * P}}
+    g = GMRFCovariate.from_json(data, {})
+    g.field.tensor = tensors['x']
+    g.precision.tensor = tensors['tau']
+    g.covariates.tensor = tensors['z']
+    g.beta.tensor = tensors['beta']
+    return g
+
+
+def covariate_body(N, P, variant, json_list):
+    from torchtree.distributions.gmrf import GMRF, GMRFCovariate
+
+    B0, fb, pb, bb, cb = COV_VARIANTS[variant]
+    nm = cov_names(N, P, variant)
+    B = nm['B']
+    batched = B > 1
+    bsig = ':batched' if batched else ''
+
+    def body(t, V, W):
+        d = t.dag
+
+        def sym(rows):
+            return from_ids(torch.tensor(rows, dtype=torch.int64))
+
+        tens = {
+            'x': sym([[V[k] for k in r] for r in nm['x']] if fb else [V[k] for k in nm['x'][0]]),
+            'tau': sym([[V[k]] for k in nm['tau']] if pb else [V[nm['tau'][0]]]),
+            'beta': sym([[V[k] for k in r] for r in nm['beta']] if bb else [V[k] for k in nm['beta'][0]]),
+            'z': sym([[[V[k] for k in r] for r in m] for m in nm['z']] if cb else [[V[k] for k in r] for r in nm['z'][0]]),
+        }
+        g = _cov_build(N, P, variant, json_list, tens)
+        try:
+            val = g()
+            Q = g.precision_matrix()
+        except Exception:
+            # an exception of the engine stands for the error real torch raises on these shapes only if the real code on plain
+            # tensors raises at this very point; otherwise it is a gap of the engine (inconclusive)
+            bad, detail = covariate_replay(N, P, variant, json_list, {}, W)
+            if not (bad and 'raises' in detail):
+                raise
+            return [Goal(f'GMRFCovariate() returns a log density ({detail[:160]})', d.FALSE, signature=f'{COV_SIG}{bsig}:raises')]
+        if not isinstance(val, SymTensor) or tuple(val.shape) != ((B, 1) if batched else (1,)):
+            return [Goal(f'GMRFCovariate(): one log density per sample (value of shape {tuple(val.shape)} for sample shape '
+                         f'{[B] if batched else []})', d.FALSE, signature=f'{COV_SIG}{bsig}:sample-shape')]
+        vids = val._ids.reshape(-1).tolist()
+        half = d.const((N - 1) / 2)
+        goals = []
+        for b in range(B):
+            x = [V[k] for k in nm['x'][b if fb else 0]]
+            be = [V[k] for k in nm['beta'][b if bb else 0]]
+            Z = [[V[k] for k in r] for r in nm['z'][b if cb else 0]]
+            tau = V[nm['tau'][b if pb else 0]]
+            # residual field r = x - Z beta, written out by the oracle
+            r = []
+            for i in range(N):
+                zb = d.const(0)
+                for p in range(P):
+                    zb = d.add(zb, d.mul(Z[i][p], be[p]))
+                r.append(d.sub(x[i], zb))
+            Qi = (Q[b] if batched else Q)._ids.tolist()
+            quad = d.const(0)
+            for i in range(N):
+                for j in range(N):
+                    quad = d.add(quad, d.mul(d.mul(r[i], Qi[i][j]), r[j]))
+            orc = d.add(d.add(d.mul(half, d.log(tau)), d.mul(d.const(-0.5), quad)), d.mul(d.neg(half), d.const(LOG2PI)))
+            goal = d.eq(vids[b], orc)
+            goals.append(Goal(f'[sample {b} of {B}] GMRFCovariate() == Gaussian quadratic form of (field - covariates x beta) with the '
+                              f'published precision matrix', goal, hyps=ground_axioms(d, [goal]),
+                              signature=f'{COV_SIG}{bsig}:density-vs-precision_matrix'))
+            ss = d.const(0)
+            for i in range(N - 1):
+                df = d.sub(r[i], r[i + 1])
+                ss = d.add(ss, d.mul(df, df))
+            orc2 = d.add(d.add(d.mul(half, d.log(tau)), d.mul(d.const(-0.5), d.mul(tau, ss))), d.mul(d.neg(half), d.const(LOG2PI)))
+            goal2 = d.eq(vids[b], orc2)
+            goals.append(Goal(f'[sample {b} of {B}] GMRFCovariate() == (N-1)/2 log tau - tau/2 sum_i (r_i - r_i+1)^2 - (N-1)/2 log 2pi, '
+                              f'r = field - covariates x beta of THIS sample (intended first-order structure matrix)', goal2,
+                              hyps=ground_axioms(d, [goal2]), signature=f'{COV_SIG}{bsig}:density-vs-intended-structure-matrix'))
+            symz = d.and_(*([d.eq(Qi[i][j], Qi[j][i]) for i in range(N) for j in range(i)]
+                            + [d.eq(functools.reduce(d.add, Qi[i]), d.const(0)) for i in range(N)]))
+            goals.append(Goal(f'[sample {b} of {B}] published precision matrix symmetric with zero row sums', symz,
+                              signature=f'{COV_SIG}{bsig}:precision-structure'))
+        return goals
+
+    return body, [GMRFCovariate._call, GMRFCovariate.from_json, GMRF.precision_matrix]
+
+
+def covariate_replay(N, P, variant, json_list, vals, W):
+    """the real class on plain tensors against a float oracle (explicit tridiagonal matrix, residuals by python loops)"""
+    B0, fb, pb, bb, cb = COV_VARIANTS[variant]
+    nm = cov_names(N, P, variant)
+    B = nm['B']
+    batched = B > 1
+    get = lambda k: float(vals[k]) if vals.get(k) is not None else float(W[k])  # noqa
+    X = [[get(k) for k in r] for r in nm['x']]
+    T = [abs(get(k)) + 1e-9 for k in nm['tau']]
+    BE = [[get(k) for k in r] for r in nm['beta']]
+    Z = [[[get(k) for k in r] for r in m] for m in nm['z']]
+    f64 = lambda v: torch.tensor(v, dtype=torch.float64)  # noqa
+    tens = {'x': f64(X if fb else X[0]), 'tau': f64([[v] for v in T] if pb else [T[0]]), 'beta': f64(BE if bb else BE[0]),
+            'z': f64(Z if cb else Z[0])}
+    shapes = {k: list(v.shape) for k, v in tens.items()}
+    try:
+        val = _cov_build(N, P, variant, json_list, tens)()
+    except Exception as e:
+        return True, (f'GMRFCovariate() raises {type(e).__name__}: {str(e)[:120]} (shapes: field {shapes["x"]}, precision '
+                      f'{shapes["tau"]}, covariates {shapes["z"]}, beta {shapes["beta"]})')
+    if tuple(val.shape) != ((B, 1) if batched else (1,)):
+        return True, (f'GMRFCovariate() returns a tensor of shape {list(val.shape)} for sample shape {[B] if batched else []} '
+                      f'(shapes: field {shapes["x"]}, precision {shapes["tau"]}, covariates {shapes["z"]}, beta {shapes["beta"]})')
+    val = val.reshape(-1).tolist()
+    for b in range(B):
+        x, be, z, tau = X[b if fb else 0], BE[b if bb else 0], Z[b if cb else 0], T[b if pb else 0]
+        r = [x[i] - sum(z[i][p] * be[p] for p in range(P)) for i in range(N)]
+        ss = sum((r[i] - r[i + 1]) ** 2 for i in range(N - 1))
+        want = 0.5 * (N - 1) * math.log(tau) - 0.5 * tau * ss - 0.5 * (N - 1) * math.log(2 * math.pi)
+        if not abs(val[b] - want) <= 1e-9 * max(1.0, abs(want)):
+            return True, (f'sample {b} of {B}: GMRFCovariate() = {val[b]} but the intrinsic GMRF density of field - covariates x beta '
+                          f'is {want} (field {x}, covariates {z}, beta {be}, precision {tau})')
+    return False, 'agree'
+
+
 # ------------------------------------------------------------------ (b) GMRFGammaIntegrated
 def integrated_body(N, time_aware=None):
     """time_aware: None (plain) or the value of the rescale flag (time-aware variant: must integrate the SAME weighted
@@ -560,45 +751,177 @@ def integrated_replay(N, vals):
 
 
 # ------------------------------------------------------------------ (c) ConstantCoalescentIntegrated
-def coal_integrated_body(n):
+def _coalint_goals(d, vid, al, be, stat_id, n, who, sig='ConstantCoalescentIntegrated:closed-form'):
+    """vid: node of the value; stat_id: node of sum_i C(k_i,2) dt_i.  Two statements of the closed form:
+    (1) a log b - lgamma(a) + lgamma(a + n-1) - (a + n-1) log(b + stat)            (lgamma uninterpreted: decides its arguments)
+    (2) a log b + sum_{i<n-1} log(a + i) - (a + n-1) log(b + stat)                 (no lgamma: Gamma(a+n-1)/Gamma(a) written as
+        the rising factorial; the implementation's two lgamma terms are connected to it by the n-1 instances
+        lgamma(a+i+1) = lgamma(a+i) + log(a+i) of the Gamma recurrence, which are the only hypotheses about lgamma)"""
+    N = d.const(n - 1)
+    orc = d.add(d.mul(al, d.log(be)), d.neg(d.uf('lgamma', al)))
+    orc = d.add(orc, d.uf('lgamma', d.add(al, N)))
+    orc = d.add(orc, d.neg(d.mul(d.add(al, N), d.log(d.add(be, stat_id)))))
+    goal = d.eq(vid, orc)
+    goals = [Goal(f'{who} == log of the closed-form inverse-gamma integral', goal, hyps=ground_axioms(d, [goal]), signature=sig)]
+    rec = []
+    rising = d.const(0)
+    for i in range(n - 1):
+        ai = d.add(al, d.const(i)) if i else al
+        rec.append(d.eq(d.uf('lgamma', d.add(al, d.const(i + 1))), d.add(d.uf('lgamma', ai), d.log(ai))))
+        rising = d.add(rising, d.log(ai))
+    orc2 = d.add(d.add(d.mul(al, d.log(be)), rising), d.neg(d.mul(d.add(al, N), d.log(d.add(be, stat_id)))))
+    goal2 = d.eq(vid, orc2)
+    goals.append(Goal(f'{who} == a log b + sum_(i<{n - 1}) log(a+i) - (a+{n - 1}) log(b + sum C(k,2) dt)  (rising-factorial form, Gamma '
+                      f'recurrence instances as the only facts about lgamma)', goal2, hyps=rec + ground_axioms(d, [goal2]),
+                      signature=sig + ':rising-factorial'))
+    return goals
+
+
+def coal_integrated_body(n, mode='float'):
+    """mode: how the prior parameters reach the distribution: 'float' (python floats, as the model class / the CLI pass them),
+    'tensor' (one-element tensors: math.log / math.lgamma convert them like .item()), 'batched' (python floats, node heights of
+    shape [2, 2n-1]: one density per tree)"""
     import C08
+    from symtorch.ext_c15 import SymMath15
     from torchtree.evolution import coalescent as co
+
+    B = 2 if mode == 'batched' else 1
 
     def body(t, V, W):
         d = t.dag
         saved = co.math
-        co.math = SymMath()
+        co.math = SymMath15() if mode == 'tensor' else SymMath()
         try:
-            h, S, C = C08._heights(V, W, n, t)
-            dist = co.ConstantCoalescentIntegrated(mkfloat(V['alpha']), mkfloat(V['beta']), validate_args=False)
+            rows = []
+            for b in range(B):
+                Vb = {k: V[_row(b, k)] for k in [f's{i}' for i in range(n)] + [f'c{j}' for j in range(n - 1)]}
+                rows.append(C08._heights(Vb, W, n, t))
+            h = rows[0][0] if B == 1 else from_ids(torch.stack([r[0]._ids for r in rows]))
+            if mode == 'tensor':
+                a_, b_ = from_ids(torch.tensor([V['alpha']], dtype=torch.int64)), from_ids(torch.tensor([V['beta']], dtype=torch.int64))
+            else:
+                a_, b_ = mkfloat(V['alpha']), mkfloat(V['beta'])
+            dist = co.ConstantCoalescentIntegrated(a_, b_, validate_args=False)
             val = dist.log_prob(h)
         finally:
             co.math = saved
-        # sufficient statistic sum_i C(k_i,2) dt_i through the independent event-list evaluator (theta = 1, no log terms)
-        stat = C08.kingman_oracle(S, C, [], lambda p, a, b: (b - a), lambda p, c: 0.0)
-        stat_id = d.neg(SymFloat._id(stat))
-        al, be = V['alpha'], V['beta']
-        N = d.const(n - 1)
-        orc = d.add(d.mul(al, d.log(be)), d.neg(d.uf('lgamma', al)))
-        orc = d.add(orc, d.uf('lgamma', d.add(al, N)))
-        orc = d.add(orc, d.neg(d.mul(d.add(al, N), d.log(d.add(be, stat_id)))))
-        goal = d.eq(sid(val), orc)
-        return [Goal('ConstantCoalescentIntegrated.log_prob == log of the closed-form inverse-gamma integral', goal,
-                     hyps=ground_axioms(d, [goal]), signature='ConstantCoalescentIntegrated:closed-form')]
+        if tuple(val.shape) != ((B, 1) if B > 1 else (1,)):
+            return [Goal(f'ConstantCoalescentIntegrated.log_prob: one log density per tree (shape {list(val.shape)})', d.FALSE,
+                         signature='ConstantCoalescentIntegrated:sample-shape')]
+        goals = []
+        for b in range(B):
+            # sufficient statistic sum_i C(k_i,2) dt_i through the independent event-list evaluator (theta = 1, no log terms)
+            stat = C08.kingman_oracle(rows[b][1], rows[b][2], [], lambda p, a, b: (b - a), lambda p, c: 0.0)
+            stat_id = d.neg(SymFloat._id(stat))
+            who = 'ConstantCoalescentIntegrated.log_prob' + (f' [tree {b} of {B}]' if B > 1 else '') + \
+                  (' (alpha, beta one-element tensors)' if mode == 'tensor' else '')
+            goals += _coalint_goals(d, int(val._ids.reshape(-1)[b]), V['alpha'], V['beta'], stat_id, n, who)
+        return goals
 
     return body, [co.ConstantCoalescentIntegrated.log_prob]
 
 
-def coal_integrated_replay(n, vals):
+def coalint_model_body(N, shape, hetero, batched):
+    """ConstantCoalescentIntegratedModel built by its from_json on a real TimeTreeModel (symbolic internal heights, concrete
+    tip dates); alpha / beta arrive as the JSON numbers and are then replaced by symbols (public attributes)"""
+    from torchtree.evolution import coalescent as co
+
+    n = N + 1
+    B = 2 if batched else 1
+
+    def body(t, V, W):
+        d = t.dag
+        import torchtree.evolution.taxa  # noqa
+        import torchtree.evolution.tree_model  # noqa
+
+        dic = {}
+        cm.build(cm.taxa_json(n, _tip_dates(N, hetero)), dic)
+        model, _ = cm.build({'id': 'coalescent', 'type': 'ConstantCoalescentIntegratedModel', 'alpha': 3, 'beta': 0.003,
+                             'tree_model': cm.time_tree_json(shape, n)}, dic)
+        rows = [[V[f'h{b}_{i}'] for i in range(N)] for b in range(B)]
+        dic['tree.heights'].tensor = from_ids(torch.tensor(rows if batched else rows[0], dtype=torch.int64))
+        tips = [float(v) for v in model.tree_model.sampling_times.tolist()]
+        saved = co.math
+        co.math = SymMath()
+        try:
+            model.alpha, model.beta = mkfloat(V['alpha']), mkfloat(V['beta'])
+            val = model()
+        finally:
+            co.math = saved
+        if tuple(val.shape) != ((B, 1) if batched else (1,)) or tuple(model.sample_shape) != ((B,) if batched else ()):
+            return [Goal(f'ConstantCoalescentIntegratedModel(): one log density per tree (shape {list(val.shape)})', d.FALSE,
+                         signature='ConstantCoalescentIntegrated:sample-shape')]
+        goals = []
+        for b in range(B):
+            oss, _ = interval_oracle(tips, [mkfloat(x) for x in rows[b]], [], 1, False)
+            who = f'ConstantCoalescentIntegratedModel() [tree {b} of {B}]'
+            goals += _coalint_goals(d, int(val._ids.reshape(-1)[b]), V['alpha'], V['beta'], SymFloat._id(oss[0]), n, who)
+        return goals
+
+    return body, [co.ConstantCoalescentIntegrated.log_prob, co.ConstantCoalescentIntegratedModel._call,
+                  co.ConstantCoalescentIntegratedModel.from_json]
+
+
+def coalint_model_replay(N, shape, hetero, batched, vals, W):
+    import mpmath as mp
+
+    n = N + 1
+    B = 2 if batched else 1
+    get = lambda k: float(vals[k]) if vals.get(k) is not None else float(W[k])  # noqa
+    a, be = abs(get('alpha')) + 1e-9, abs(get('beta')) + 1e-9
+    rows = [[get(f'h{b}_{i}') for i in range(N)] for b in range(B)]
+    dic = {}
+    cm.build(cm.taxa_json(n, _tip_dates(N, hetero)), dic)
+    try:
+        model, _ = cm.build({'id': 'coalescent', 'type': 'ConstantCoalescentIntegratedModel', 'alpha': a, 'beta': be,
+                             'tree_model': cm.time_tree_json(shape, n)}, dic)
+        dic['tree.heights'].tensor = torch.tensor(rows if batched else rows[0], dtype=torch.float64)
+        val = model()
+    except Exception as e:
+        return True, f'raised {type(e).__name__}: {str(e)[:160]}'
+    if tuple(val.shape) != ((B, 1) if batched else (1,)):
+        return True, f'value of shape {list(val.shape)} for {B} tree(s)'
+    tips = [float(v) for v in model.tree_model.sampling_times.tolist()]
+    for b in range(B):
+        oss, _ = interval_oracle(tips, rows[b], [], 1, False)
+        stat = oss[0]
+        # int_0^inf InvGamma(theta; a, b) theta^-(n-1) exp(-stat/theta) dtheta by quadrature
+        f = lambda th: mp.mpf(be) ** a / mp.gamma(a) * th ** (-a - 1) * mp.e ** (-be / th) * th ** (-(n - 1)) * mp.e ** (-stat / th)  # noqa
+        want = float(mp.log(mp.quad(f, [0, 0.5, 2, 10, mp.inf])))
+        got = float(val.reshape(-1)[b])
+        if abs(got - want) > 1e-6 * max(1.0, abs(want)):
+            return True, (f'tree {b}: ConstantCoalescentIntegratedModel() = {got} but numerical integration of inverse-gamma x constant '
+                          f'coalescent gives {want} (alpha={a}, beta={be}, internal heights {rows[b]}, tip dates {tips})')
+    return False, 'agree with quadrature'
+
+
+def coal_integrated_replay(n, vals, mode='float'):
     import mpmath as mp
 
     from torchtree.evolution.coalescent import ConstantCoalescent, ConstantCoalescentIntegrated
 
     a = abs(vals.get('alpha', 1.2)) + 0.05
     b = abs(vals.get('beta', 0.7)) + 0.05
+    if mode == 'batched':
+        H = torch.tensor([[vals.get(_row(r, f's{i}'), 0.0) for i in range(n)] + [vals.get(_row(r, f'c{j}'), 1.0 + j + 0.5 * r) for j in range(n - 1)]
+                          for r in range(2)], dtype=torch.float64)
+        try:
+            both = ConstantCoalescentIntegrated(a, b).log_prob(H)
+        except Exception as e:
+            return True, f'raised {type(e).__name__}: {str(e)[:160]}'
+        if tuple(both.shape) != (2, 1):
+            return True, f'log_prob of a batch of 2 trees has shape {list(both.shape)}'
+        for r in range(2):
+            one = float(ConstantCoalescentIntegrated(a, b).log_prob(H[r]))
+            if abs(float(both[r]) - one) > 1e-9 * max(1.0, abs(one)):
+                return True, f'tree {r} of the batch: log_prob = {float(both[r])} but that tree alone gives {one}'
+        vals = {k: v for k, v in vals.items() if not k.startswith('b1.')}
     h = torch.tensor([vals.get(f's{i}', 0.0) for i in range(n)] + [vals.get(f'c{j}', 1.0 + j) for j in range(n - 1)],
                      dtype=torch.float64)
-    got = float(ConstantCoalescentIntegrated(a, b).log_prob(h))
+    if mode == 'tensor':
+        got = float(ConstantCoalescentIntegrated(torch.tensor([a], dtype=torch.float64), torch.tensor([b], dtype=torch.float64)).log_prob(h))
+    else:
+        got = float(ConstantCoalescentIntegrated(a, b).log_prob(h))
 
     def integrand(theta):
         lp = float(ConstantCoalescent(torch.tensor([float(theta)], dtype=torch.float64)).log_prob(h))
@@ -721,7 +1044,472 @@ def ss_batched_task(task, tr):
         cm.discharge(tr, d, list(t.pcs), goals, label, replay=rp, varnodes=V, defined=False, timeout=30, parallel=True)
 
 
+# ------------------------------------------------------------------ (d') ties, grids beyond the root, the consumer
+# Task ('ss2', model, n, G, perm, opts); opts is a tuple of (key, value) pairs:
+#   alias   ((a, b), ...)   input a IS input b (one symbol): a grid point equal to a sampling time / a coalescent time, a
+#                           sampling time equal to a coalescent time.  torch's own tie-breaking then runs on exactly equal
+#                           values (regions are closed sets, so without aliasing the behaviour AT the tie is never executed)
+#   beyond  True            every grid point lies beyond the root (all statistics fall into the first interval)
+#   iso     True            all tips share one symbolic sampling time (aliases s_i = s_0)
+#   via     'direct' | 'operator' | 'operator-batched'
+#                           direct: sufficient_statistics() is called by the harness
+#                           operator: the real GMRFPiecewiseCoalescentBlockUpdatingOperator (_step and __call__) runs on the
+#                           real models (theta = exp(field) through the real TransformedParameter, as the CLI wires it) and the
+#                           arguments it hands to its Newton iteration (counts, statistics, field, precision matrix: the
+#                           quantities it builds the Gaussian proposal from) are captured
+#   gmrf    'plain' | 'time-aware'      (operator routes; time-aware = the CLI's default for skyride)
+#   cfg     int             operator-batched: which pair of trees (see SS2_BATCH_CONFIGS)
+class _Captured(Exception):
+    pass
+
+
+GAMMA_BOUND = 20
+
+
+def interval_oracle(samp, coal, breaks, K, by_rank):
+    """per-interval sufficient statistic  int C(k(t),2) dt  and number of coalescent events, by one pass over the merged
+    event list (ties: sampling, then coalescent, then break: a coalescence exactly on a break belongs to the interval
+    that ends there - N(t) = theta[#breaks < t], the convention C08 validates log_prob against).  by_rank (skyride):
+    the j-th coalescence ends interval j."""
+    ev = [(t, 0, i, +1) for i, t in enumerate(samp)] + [(t, 1, i, -1) for i, t in enumerate(coal)] + \
+         [(t, 2, i, 0) for i, t in enumerate(breaks)]
+
+    def cmp(x, y):
+        if (x[1], x[2]) <= (y[1], y[2]):
+            return -1 if x[0] <= y[0] else 1
+        return 1 if y[0] <= x[0] else -1
+
+    ev.sort(key=functools.cmp_to_key(cmp))
+    ss = [0.0] * K
+    cnt = [0] * K
+    k = piece = rank = 0
+    for pos, (t, kind, i, mark) in enumerate(ev):
+        if kind == 1:
+            cnt[min(rank if by_rank else piece, K - 1)] += 1
+            rank += 1
+        k += mark
+        if kind == 2:
+            piece += 1
+        if pos + 1 < len(ev) and k >= 2:
+            ss[min(piece, K - 1)] = ss[min(piece, K - 1)] + (k * (k - 1) / 2.0) * (ev[pos + 1][0] - t)
+    return ss, cnt
+
+
+# operator-batched: (sampling order of tree 0, of tree 1, factor applied to the heights of tree 1, grid points)
+SS2_BATCH_CONFIGS = [
+    ((0, 1, 2), (2, 0, 1), 0.5, (1.3, 2.6)),  # grid inside both trees, different interleavings
+    ((0, 1, 2), (1, 2, 0), 0.2, (1.3, 2.6)),  # grid inside tree 0, entirely beyond the root of tree 1
+    ((2, 1, 0), (0, 2, 1), 1.5, (2.2, 6.5)),  # last grid point beyond both roots
+    ((0, 1, 2, 3), (3, 1, 0, 2), 0.4, (1.3, 2.9)),
+    ((1, 0, 3, 2), (0, 1, 2, 3), 0.15, (1.3, 2.9)),
+]
+
+
+def ss2_opts(opts, n=0):
+    o = dict(opts)
+    o.setdefault('via', 'direct')
+    o.setdefault('alias', ())
+    o.setdefault('gmrf', 'plain')
+    if o.get('iso'):  # all tips sampled at the same (symbolic) time
+        o['alias'] = tuple(o['alias']) + tuple((f's{i}', 's0') for i in range(1, n))
+    return o
+
+
+def ss2_rows(o):
+    return 2 if o['via'] == 'operator-batched' else 1
+
+
+def _row(b, name):
+    return name if b == 0 else f'b{b}.{name}'
+
+
+def ss2_expand(V, o):
+    """name -> node (or value) including the aliased names"""
+    V2 = dict(V)
+    for a, b in o['alias']:
+        V2[a] = V2[b]
+    return V2
+
+
+def ss2_witness(model, n, G, perm, o):
+    import C08
+
+    K = (n - 1) if model == 'skyride' else G + 1
+    Gm = G if model == 'skygrid' else 0
+    W = {}
+    if o['via'] == 'operator-batched':
+        p0, p1, f1, gv = SS2_BATCH_CONFIGS[o['cfg']]
+        for b, (pp, f) in enumerate(((p0, 1.0), (p1, f1))):
+            Wb = C08.initial_witness(n, pp, 0, 0)
+            W.update({_row(b, k): v * f for k, v in Wb.items()})
+        W.update({f'g{k}': gv[k] for k in range(Gm)})
+    else:
+        W = C08.initial_witness(n, perm, Gm, K if o['via'] == 'direct' else 0)
+        if o.get('beyond'):
+            for k in range(Gm):
+                W[f'g{k}'] = W[f'c{n - 2}'] + 0.7 + 1.1 * k
+    if o['via'] != 'direct':
+        for b in range(ss2_rows(o)):
+            W.update({_row(b, f'gamma{k}'): 0.4 + 0.35 * k - 0.2 * ((k + b) % 2) + 0.3 * b for k in range(K)})
+            W[_row(b, 'tau')] = 1.7 + b
+            W[_row(b, 'taunew')] = 2.3 + 0.5 * b
+    for a, _ in o['alias']:
+        del W[a]
+    full = ss2_expand(W, o)
+    for k in range(1, Gm):  # keep the grid increasing after aliasing
+        if f'g{k}' in W and full[f'g{k}'] < full[f'g{k - 1}'] + 0.3:
+            W[f'g{k}'] = full[f'g{k}'] = full[f'g{k - 1}'] + 0.45
+    return W
+
+
+def ss2_domain(model, n, G, perm, o):
+    import C08
+
+    Gm = G if model == 'skygrid' else 0
+
+    def domain(d, V0):
+        V = ss2_expand(V0, o)
+        cs = []
+        for b in range(ss2_rows(o)):
+            Vb = {k: V[_row(b, k)] for k in [f's{i}' for i in range(n)] + [f'c{j}' for j in range(n - 1)]}
+            pp = perm if o['via'] != 'operator-batched' else SS2_BATCH_CONFIGS[o['cfg']][b]
+            cs += C08.coalescent_domain(d, Vb, n, C08.order_constraint(d, Vb, pp))
+            if o['via'] != 'direct':
+                cs += [d.lt(0, V[_row(b, 'tau')]), d.lt(0, V[_row(b, 'taunew')])]
+                # theta = exp(field) must stay a positive double in the witness run (the distributions validate theta > 0)
+                for k in range((n - 1) if model == 'skyride' else G + 1):
+                    cs += [d.le(d.const(-GAMMA_BOUND), V[_row(b, f'gamma{k}')]), d.le(V[_row(b, f'gamma{k}')], d.const(GAMMA_BOUND))]
+            if o['gmrf'] == 'time-aware':
+                # durations of the time-aware GMRF are denominators: distinct coalescent times, first one after time 0
+                cj = [Vb[f'c{j}'] for j in range(n - 1)]
+                cs += [d.lt(0, c) for c in cj] + [d.not_(d.eq(cj[i], cj[j])) for i in range(n - 1) for j in range(i)]
+        for k in range(Gm):
+            cs.append(d.lt(0, V[f'g{k}']))
+            if k:
+                cs.append(d.le(V[f'g{k - 1}'], V[f'g{k}']))
+        if o['via'] == 'direct':
+            cs += [d.lt(0, V[k]) for k in V if k.startswith('theta')]
+        if o.get('beyond'):
+            cs += [d.lt(V[f'c{j}'], V['g0']) for j in range(n - 1)]
+        return cs
+
+    return domain
+
+
+def _consumer_build(model, n, tens, gmrf_kind, B):
+    """the real models and the real operator, wired as the CLI wires them: theta = exp(field) (TransformedParameter), the
+    GMRF on the field, skyride optionally time-aware.  tens: H (node heights), gamma, tau, taunew, grid"""
+    from torchtree.core.parameter import Parameter, TransformedParameter
+    from torchtree.distributions.gmrf import GMRF
+    from torchtree.evolution import coalescent as co
+    from torchtree.inference.mcmc.gmrf_block_updating import GMRFPiecewiseCoalescentBlockUpdatingOperator as Op
+
+    gamma_p = Parameter('coalescent.theta.log', tens['gamma'])
+    theta_p = TransformedParameter('coalescent.theta', gamma_p, torch.distributions.ExpTransform())
+    tree = co.FakeTreeModel(Parameter('heights', tens['H']))
+    if model == 'skygrid':
+        cmodel = co.PiecewiseConstantCoalescentGridModel('coalescent', theta_p, Parameter('grid', tens['grid']), tree)
+    else:
+        cmodel = co.PiecewiseConstantCoalescentModel('coalescent', theta_p, tree)
+    prec = Parameter('gmrf.precision', tens['tau'])
+    gm = GMRF('gmrf', gamma_p, prec, Heights(tens['H'], n) if gmrf_kind == 'time-aware' else None, None, True)
+    op = Op('op', cmodel, gm, 1.0, 0.24, 2.0)
+    op.propose_precision = lambda: tens['taunew']
+    return op, cmodel, gm, theta_p, gamma_p, prec
+
+
+def _consumer_capture(op, route, B, restore):
+    """run the real _step / __call__ until it has handed its B Newton problems over; returns the captured argument tuples
+    (numCoalEv, wNative, gamma, precision_matrix) in the order of the parameters of newton_raphson"""
+    captured = []
+
+    def rec(numCoalEv, wNative, gamma, precision_matrix):
+        captured.append((numCoalEv, wNative, gamma, precision_matrix))
+        if len(captured) >= B:
+            raise _Captured()
+        return gamma
+
+    op.newton_raphson = rec
+    restore()
+    try:
+        op._step() if route == '_step' else op()
+    except _Captured:
+        pass
+    return captured
+
+
+def ss2_body(model, n, G, perm, o):
+    import C08
+    from torchtree.distributions.gmrf import GMRF
+    from torchtree.evolution import coalescent as co
+    from torchtree.inference.mcmc.gmrf_block_updating import GMRFPiecewiseCoalescentBlockUpdatingOperator as Op
+
+    K = (n - 1) if model == 'skyride' else G + 1
+    Gm = G if model == 'skygrid' else 0
+    B = ss2_rows(o)
+    batched = B > 1
+    cls = co.PiecewiseConstantCoalescent if model == 'skyride' else co.PiecewiseConstantCoalescentGrid
+    tag = '' if not o['alias'] else ':tie'
+
+    def flat(d, x):
+        return x._ids.reshape(-1).tolist() if isinstance(x, SymTensor) else [d.const(float(v)) for v in x.reshape(-1).tolist()]
+
+    def reproduce(d, ssi, ci, th):
+        rec = 0
+        for s_, c_, t_ in zip(ssi, ci, th):
+            rec = d.sub(rec, d.div(s_, t_))
+            rec = d.sub(rec, d.mul(c_, d.log(t_)))
+        return rec
+
+    def oracle_goals(d, who, ssi, ci, S, C, gr, sig):
+        """per-interval statistics and counts against the event-list oracle (one obligation: the conjunction over the intervals)"""
+        oss, ocnt = interval_oracle(S, C, list(C) if model == 'skyride' else gr, K, model == 'skyride')
+        node = d.and_(*([d.eq(ssi[k], SymFloat._id(oss[k])) for k in range(K)] + [d.eq(ci[k], d.const(ocnt[k])) for k in range(K)]))
+        return [Goal(f'{who}: for each of the {K} intervals, sufficient statistic == int C(lineages,2) dt over that interval and '
+                     f'coalescent count == number of coalescent events in it', node, signature=sig + ':per-interval')]
+
+    def body(t, V0, W):
+        d = t.dag
+        V = ss2_expand(V0, o)
+        rows = []
+        for b in range(B):
+            Vb = {k: V[_row(b, k)] for k in [f's{i}' for i in range(n)] + [f'c{j}' for j in range(n - 1)]}
+            rows.append(C08._heights(Vb, None, n, t))
+        gridt = cm.var_tensor(V, [f'g{k}' for k in range(Gm)]) if Gm else None
+        gr = [mkfloat(V[f'g{k}']) for k in range(Gm)]
+        if o['via'] == 'direct':
+            h, S, C = rows[0]
+            theta = cm.var_tensor(V, [f'theta{k}' for k in range(K)])
+            dist = cls(theta, validate_args=False) if model == 'skyride' else cls(theta, gridt, validate_args=False)
+            lp = dist.log_prob(h)
+            ss, counts = dist.sufficient_statistics(h)
+            ssi, ci, th = flat(d, ss), flat(d, counts), theta._ids.tolist()
+            if not (len(ssi) == len(ci) == len(th)):
+                return [Goal(f'{model}: one sufficient statistic and one count per population size', d.FALSE,
+                             signature=f'{model}:sufficient_statistics-shape')]
+            goal = d.eq(sid(lp), reproduce(d, ssi, ci, th))
+            goals = [Goal(f'{model}: -sum ss_k/theta_k - sum c_k log theta_k == log_prob', goal, hyps=ground_axioms(d, [goal]),
+                          signature=f'{model}:sufficient_statistics{tag}')]
+            return goals + oracle_goals(d, model, ssi, ci, S, C, gr, f'{model}:sufficient_statistics{tag}')
+        # ---- the consumer
+        H = from_ids(torch.stack([r[0]._ids for r in rows])) if batched else rows[0][0]
+        gam = [[V[_row(b, f'gamma{k}')] for k in range(K)] for b in range(B)]
+        tens = {'H': H, 'grid': gridt,
+                'gamma': from_ids(torch.tensor(gam if batched else gam[0], dtype=torch.int64)),
+                'tau': from_ids(torch.tensor([[V[_row(b, 'tau')]] for b in range(B)] if batched else [V['tau']], dtype=torch.int64)),
+                'taunew': from_ids(torch.tensor([[V[_row(b, 'taunew')]] for b in range(B)] if batched else [V['taunew']],
+                                                dtype=torch.int64))}
+        op, cmodel, gm, theta_p, gamma_p, prec = _consumer_build(model, n, tens, o['gmrf'], B)
+        bsig = ':batched' if batched else ''
+        if batched:
+            # the statistics of a batch must be those of each tree alone (the operator indexes them by sample)
+            try:
+                ssb, cb = cmodel.distribution().sufficient_statistics(H)
+            except Exception as e:
+                bad, detail = ss2_replay(model, n, G, perm, o, {}, W)
+                if not (bad and 'raised' in detail):
+                    raise
+                # same convention as for the batched skyride statistics above: refusing a batch loudly is not a wrong density
+                t.notes20 = f'{model}: sufficient_statistics() of a batch raises {type(e).__name__} (accepted: fails loudly)'
+                return []
+            if tuple(ssb.shape) != (B, K) or tuple(cb.shape) != (B, K):
+                return [Goal(f'{model}: sufficient statistics / counts of a batch of {B} trees have shape [{B}, {K}] '
+                             f'(got {list(ssb.shape)}, {list(cb.shape)})', d.FALSE, signature=f'{model}:sufficient_statistics:batched')]
+        goals = []
+
+        def restore():
+            prec.tensor = tens['tau']
+            gamma_p.tensor = tens['gamma']
+
+        for route in (('__call__',) if batched else ('_step', '__call__')):
+            try:
+                caps = _consumer_capture(op, route, B, restore)
+            except Exception as e:
+                bad, detail = ss2_replay(model, n, G, perm, o, {}, W)
+                if not (bad and 'raised' in detail):
+                    raise
+                if batched:
+                    t.notes20 = f'{model}: the operator called on a batch raises {type(e).__name__} (accepted: fails loudly)'
+                    return []
+                return [Goal(f'{route}: the operator reads the statistics of every sample ({type(e).__name__}; {detail[:160]})', d.FALSE,
+                             signature=f'GMRFBlockUpdating:{model}{bsig}:reads')]
+            if len(caps) != B:
+                return [Goal(f'{route}: one Newton problem per sample', d.FALSE, signature=f'GMRFBlockUpdating:{model}{bsig}:reads')]
+            lpc = flat(d, cmodel())
+            lpg = flat(d, gm())  # the precision is the proposed one now, like the precision matrix the operator read
+            th = theta_p.tensor._ids.reshape(B, K).tolist()
+            for b in range(B):
+                who = f'{route} [sample {b} of {B}]'
+                c_, w_, g_, Q_ = caps[b]
+                if not (tuple(c_.shape) == tuple(w_.shape) == tuple(g_.shape) == (K,) and tuple(Q_.shape) == (K, K)):
+                    return [Goal(f'{who}: counts, statistics, field of length {K} and a {K}x{K} precision matrix are handed to the Newton '
+                                 f'iteration (got {list(c_.shape)}, {list(w_.shape)}, {list(g_.shape)}, {list(Q_.shape)})', d.FALSE,
+                                 signature=f'GMRFBlockUpdating:{model}{bsig}:reads')]
+                ci, wi, gi, Qi = flat(d, c_), flat(d, w_), flat(d, g_), Q_._ids.tolist() if isinstance(Q_, SymTensor) else None
+                goals.append(Goal(f'{who}: the field handed over is the GMRF field of that sample', d.bconst(gi == gam[b] and Qi is not None),
+                                  signature=f'GMRFBlockUpdating:{model}{bsig}:reads'))
+                if Qi is None:
+                    continue
+                goal = d.eq(lpc[b], reproduce(d, wi, ci, th[b]))
+                goals.append(Goal(f'{who}: -sum w_k/theta_k - sum c_k log theta_k == coalescent log density of that sample, with (c, w) = '
+                                  f'(numCoalEv, wNative) as the operator hands them over and theta = exp(field)', goal,
+                                  hyps=ground_axioms(d, [goal]), signature=f'GMRFBlockUpdating:{model}{bsig}:reads:coalescent-density'))
+                S, C = rows[b][1], rows[b][2]
+                goals += oracle_goals(d, who, wi, ci, S, C, gr, f'GMRFBlockUpdating:{model}{bsig}:reads')
+                quad = d.const(0)
+                for i in range(K):
+                    for j in range(K):
+                        quad = d.add(quad, d.mul(d.mul(gi[i], Qi[i][j]), gi[j]))
+                half = d.const((K - 1) / 2)
+                tn = V[_row(b, 'taunew')]
+                orc = d.add(d.add(d.mul(half, d.log(tn)), d.mul(d.const(-0.5), quad)), d.mul(d.neg(half), d.const(LOG2PI)))
+                goal = d.eq(lpg[b], orc)
+                goals.append(Goal(f'{who}: GMRF() at the proposed precision == Gaussian quadratic form of the field with the precision matrix '
+                                  f'the operator read', goal, hyps=ground_axioms(d, [goal]),
+                                  signature=(f'GMRF:{o["gmrf"]}:density-vs-precision_matrix' if o['gmrf'] != 'plain'
+                                             else f'GMRFBlockUpdating:{model}{bsig}:reads:gmrf-density')))
+        # _step and __call__ hand over the same expressions on the unchanged tree: one query per distinct obligation
+        seen, uniq = set(), []
+        for g_ in goals:
+            if (g_.node, g_.signature) not in seen:
+                seen.add((g_.node, g_.signature))
+                uniq.append(g_)
+        return uniq
+
+    return body, [cls.sufficient_statistics, cls.log_prob] + ([Op._step, Op.__call__, GMRF.precision_matrix, GMRF._call]
+                                                              if o['via'] != 'direct' else [])
+
+
+def ss2_replay(model, n, G, perm, o, vals, W):
+    """plain tensors, float oracles (python event list, explicit loops)"""
+    from torchtree.evolution import coalescent as co
+
+    K = (n - 1) if model == 'skyride' else G + 1
+    Gm = G if model == 'skygrid' else 0
+    B = ss2_rows(o)
+    batched = B > 1
+    full = ss2_expand({k: (float(vals[k]) if vals.get(k) is not None else float(W[k])) for k in W}, o)
+    f64 = lambda v: torch.tensor(v, dtype=torch.float64)  # noqa
+    S = [[full[_row(b, f's{i}')] for i in range(n)] for b in range(B)]
+    C = [[full[_row(b, f'c{j}')] for j in range(n - 1)] for b in range(B)]
+    gr = [full[f'g{k}'] for k in range(Gm)]
+    close = lambda a, b: abs(a - b) <= 1e-9 * max(1.0, abs(a), abs(b))  # noqa
+
+    def against_oracle(who, b, ss, cnt, th, lp):
+        ss = [float(v) for v in ss]
+        cnt = [float(v) for v in cnt]
+        rec = -sum(s_ / t_ for s_, t_ in zip(ss, th)) - sum(c_ * math.log(t_) for c_, t_ in zip(cnt, th))
+        if not close(rec, lp):
+            return f'{who}: log density {lp} but the statistics {ss} / counts {cnt} give {rec} (heights {S[b] + C[b]}, grid {gr})'
+        oss, ocnt = interval_oracle(S[b], C[b], list(C[b]) if model == 'skyride' else gr, K, model == 'skyride')
+        if not all(close(a, b_) for a, b_ in zip(ss, oss)) or not all(close(a, b_) for a, b_ in zip(cnt, ocnt)):
+            return (f'{who}: statistics {ss} / counts {cnt} but the intervals hold {oss} / {ocnt} '
+                    f'(sampling times {S[b]}, coalescent times {C[b]}, grid {gr})')
+        return None
+
+    try:
+        if o['via'] == 'direct':
+            th = [abs(full[f'theta{k}']) + 1e-9 for k in range(K)]
+            dist = co.PiecewiseConstantCoalescent(f64(th)) if model == 'skyride' else co.PiecewiseConstantCoalescentGrid(f64(th), f64(gr))
+            h = f64(S[0] + C[0])
+            lp = float(dist.log_prob(h))
+            ss, cnt = dist.sufficient_statistics(h)
+            if tuple(ss.shape) != (K,) or tuple(cnt.shape) != (K,):
+                return True, f'sufficient statistics shapes {tuple(ss.shape)}, {tuple(cnt.shape)} vs {K} population sizes'
+            msg = against_oracle(model, 0, ss.tolist(), cnt.tolist(), th, lp)
+            return (True, msg) if msg else (False, 'agree')
+        gam = [[full[_row(b, f'gamma{k}')] for k in range(K)] for b in range(B)]
+        tau = [abs(full[_row(b, 'tau')]) + 1e-9 for b in range(B)]
+        taun = [abs(full[_row(b, 'taunew')]) + 1e-9 for b in range(B)]
+        Hh = [S[b] + C[b] for b in range(B)]
+        tens = {'H': f64(Hh if batched else Hh[0]), 'grid': f64(gr) if Gm else None, 'gamma': f64(gam if batched else gam[0]),
+                'tau': f64([[v] for v in tau] if batched else [tau[0]]), 'taunew': f64([[v] for v in taun] if batched else [taun[0]])}
+        op, cmodel, gm, theta_p, gamma_p, prec = _consumer_build(model, n, tens, o['gmrf'], B)
+        if batched:
+            ssb, cb = cmodel.distribution().sufficient_statistics(tens['H'])
+            if tuple(ssb.shape) != (B, K) or tuple(cb.shape) != (B, K):
+                return True, (f'{model}: sufficient_statistics() of a batch of {B} trees ({K} population sizes each) returns statistics '
+                              f'{ssb.tolist()} and counts {cb.tolist()} (shapes {list(ssb.shape)}, {list(cb.shape)}); each tree alone gives '
+                              + str([[x.tolist() for x in type(cmodel.distribution())(theta_p.tensor[b], *([tens["grid"]] if Gm else [])).sufficient_statistics(tens["H"][b])] for b in range(B)]))
+
+        def restore():
+            prec.tensor = tens['tau']
+            gamma_p.tensor = tens['gamma']
+
+        for route in (('__call__',) if batched else ('_step', '__call__')):
+            caps = _consumer_capture(op, route, B, restore)
+            if len(caps) != B:
+                return True, f'{route}: {len(caps)} Newton problems for {B} samples'
+            lpc = cmodel().reshape(-1).tolist()
+            lpg = gm().reshape(-1).tolist()
+            th = theta_p.tensor.reshape(B, K).tolist()
+            for b in range(B):
+                c_, w_, g_, Q_ = caps[b]
+                if not (tuple(c_.shape) == tuple(w_.shape) == tuple(g_.shape) == (K,) and tuple(Q_.shape) == (K, K)):
+                    return True, (f'{route} sample {b}: shapes handed to the Newton iteration {list(c_.shape)}, {list(w_.shape)}, '
+                                  f'{list(g_.shape)}, {list(Q_.shape)}')
+                if not all(close(a, b_) for a, b_ in zip(g_.tolist(), gam[b])):
+                    return True, f'{route} sample {b}: field handed over {g_.tolist()} but the GMRF field of that sample is {gam[b]}'
+                msg = against_oracle(f'{route} sample {b} (numCoalEv, wNative as handed to newton_raphson)', b, w_.tolist(), c_.tolist(), th[b], lpc[b])
+                if msg:
+                    return True, msg
+                x = f64(gam[b])
+                want = 0.5 * (K - 1) * math.log(taun[b]) - 0.5 * float(x @ Q_.to(torch.float64) @ x) - 0.5 * (K - 1) * math.log(2 * math.pi)
+                if not close(lpg[b], want):
+                    return True, (f'{route} sample {b}: GMRF() = {lpg[b]} but the quadratic form with the precision matrix the operator '
+                                  f'read gives {want} (field {gam[b]}, proposed precision {taun[b]}, {o["gmrf"]} GMRF)')
+    except Exception as e:
+        return True, f'raised {type(e).__name__}: {str(e)[:160]}'
+    return False, 'agree'
+
+
+def ss2_task(task, tr):
+    _, model, n, G, perm, opts = task
+    o = ss2_opts(opts, n)
+    body, fns = ss2_body(model, n, G, perm, o)
+    desc = ', '.join(f'{k}={v}' for k, v in sorted(o.items()) if v not in ((), 'plain') or k == 'via')
+    label = f'sufficient statistics {model} n={n} G={G if model == "skygrid" else 0} sampling-order={perm} [{desc}]'
+    W = ss2_witness(model, n, G, perm, o)
+    W0 = dict(W)
+    rp = lambda vals: ss2_replay(model, n, G, perm, o, vals, W0)  # noqa
+    tr.fn(*fns)
+    if o['via'] != 'direct':
+        tr.stubs.add('consumer tasks: GMRFPiecewiseCoalescentBlockUpdatingOperator.propose_precision -> a fresh symbolic proposed '
+                     'precision > 0 (its randomness; the proposal itself is C15\'s), newton_raphson -> recorder of its arguments '
+                     '(the run stops once every sample\'s Newton problem has been handed over)')
+        tr.bounds['consumer (block-update operator)'] = (
+            'real _step and __call__ on the real coalescent models / GMRF wired like the CLI (theta = exp(field)); skygrid with 1-2 '
+            'symbolic grid points (inside / beyond the tree: all interleavings, coverage certificate) and skyride (plain and '
+            'time-aware GMRF), n = 3 (quick: three of the six sampling orders for one grid point, two grid points with the tips '
+            'sampled together or the grid beyond the root; thorough: all orders, and n = 4 for one sampling order), '
+            f'heterochronous symbolic sampling times, field entries in [-{GAMMA_BOUND}, {GAMMA_BOUND}] '
+            '(exp(field) has to be a positive double in the witness runs); batches of 2 trees (__call__): explored '
+            'regions around hand-picked pairs of trees only, no coverage certificate')
+    batched = o['via'] == 'operator-batched'
+    body0 = body
+
+    def body(t, V, W_):
+        goals = body0(t, V, W_)
+        note = getattr(t, 'notes20', None)
+        if note and f'{label}: {note}' not in tr.notes:
+            tr.notes.append(f'{label}: {note}')
+        return goals
+
+    ex = Explorer(W, ss2_domain(model, n, G, perm, o), body, tr, max_regions=(3 if batched else 1500), timeout=40.0, label=label,
+                  deadline=time.time() + 1500, require_closure=not batched)
+    out = ex.run()
+    for s in out.region_samples[:1]:
+        s['case'] = label
+        tr.sample(s)
+    triage(out, rp, tr, label, {'model': model, 'n': n, 'G': G, 'opts': [list(x) if isinstance(x, tuple) else x for x in opts]})
+
+
 # ------------------------------------------------------------------ driver
+# task kinds whose goals are sent to the three solvers at once (first definite answer wins): degree-5 polynomial identities
+# that z3 4.8 needs > 10 s for and cvc5 closes at once (or the other way round)
+PORTFOLIO_KINDS = ('covariate',)
+
+
 def run_task(task, tr):
     import C08
 
@@ -779,6 +1567,22 @@ def run_task(task, tr):
                                '(parent > child); tip dates are concrete (TimeTreeModel.sampling_times is built from the taxa)')
         if model == 'integrated':
             tr.stubs.add('gmrf_integrated.math -> SymMath (log / lgamma of the symbolic shape and rate stay symbolic, lgamma uninterpreted)')
+    elif kind == 'covariate':
+        _, N, P, variant, json_list = task
+        body, fns = covariate_body(N, P, variant, json_list)
+        label = (f'GMRFCovariate N={N} covariates={P} batching={variant} '
+                 f'(covariates given as a {"list" if json_list else "Parameter"} in the JSON)')
+        W = cov_witness(N, P, variant)
+        nmc = cov_names(N, P, variant)
+        domain = lambda d, V: [d.lt(0, V[k]) for k in nmc['tau']]  # noqa
+        W0 = dict(W)
+        rp = lambda vals: covariate_replay(N, P, variant, json_list, vals, W0)  # noqa
+        extra = {'N': N, 'P': P, 'batching': variant, 'json_list': json_list}
+        tr.bounds['GMRFCovariate'] = (
+            'field length 2..4 (5 thorough), 1..3 covariates (also as many covariates as field entries), field / precision / '
+            'covariates / beta all symbolic; sample shapes [] and [2] (and [N]: as many samples as field entries) with beta, '
+            'the covariates and the precision batched or shared; object built by the real from_json (covariates as list or as '
+            'Parameter).  The class passes neither tree model nor weights on, so the plain structure matrix is its only variant')
     elif kind == 'integrated':
         _, N = task
         body, fns = integrated_body(N)
@@ -810,15 +1614,47 @@ def run_task(task, tr):
         extra = {'N': N, 'rescale': rescale}
     elif kind == 'ss-batched':
         return ss_batched_task(task, tr)
+    elif kind == 'ss2':
+        return ss2_task(task, tr)
     elif kind == 'coalint':
-        _, n, perm = task
-        body, fns = coal_integrated_body(n)
-        label = f'ConstantCoalescentIntegrated n={n} sampling-order={perm}'
+        n, perm = task[1], task[2]
+        mode = task[3] if len(task) > 3 else 'float'
+        body, fns = coal_integrated_body(n, mode)
+        label = f'ConstantCoalescentIntegrated n={n} sampling-order={perm}' + (f' [{mode}]' if mode != 'float' else '')
         W = C08.initial_witness(n, perm, 0, 0)
+        if mode == 'batched':  # second tree: reversed sampling order, other heights
+            W.update({_row(1, k): 0.6 * v + (0.2 if k.startswith('c') else 0.0)
+                      for k, v in C08.initial_witness(n, tuple(reversed(perm)), 0, 0).items()})
         W.update({'alpha': 1.3, 'beta': 0.7})
-        domain = lambda d, V: C08.coalescent_domain(d, V, n, C08.order_constraint(d, V, perm) + [d.lt(0, V['alpha']), d.lt(0, V['beta'])])  # noqa
-        rp = lambda vals: coal_integrated_replay(n, vals)  # noqa
-        extra = {'n': n}
+
+        def domain(d, V):
+            cs = [d.lt(0, V['alpha']), d.lt(0, V['beta'])]
+            for b in range(2 if mode == 'batched' else 1):
+                Vb = {k: V[_row(b, k)] for k in [f's{i}' for i in range(n)] + [f'c{j}' for j in range(n - 1)]}
+                cs += C08.coalescent_domain(d, Vb, n, C08.order_constraint(d, Vb, perm if b == 0 else tuple(reversed(perm))))
+            return cs
+
+        rp = lambda vals: coal_integrated_replay(n, vals, mode)  # noqa
+        extra = {'n': n, 'mode': mode}
+        tr.assumptions.add('Gamma recurrence (trusted): lgamma(x+1) = lgamma(x) + log(x) for x > 0, used as hypothesis instances '
+                           'x = alpha .. alpha+n-2 in the rising-factorial statement of the integrated coalescent')
+    elif kind == 'coalint-model':
+        _, N, si, hetero, batched = task
+        shape = _tree_shapes(N)[si]
+        body, fns = coalint_model_body(N, shape, hetero, batched)
+        label = (f'ConstantCoalescentIntegratedModel (from_json, real TimeTreeModel) tree={cm.to_newick(shape)} '
+                 f'tips={"heterochronous" if hetero else "at 0"} batched={batched}')
+        # internal heights h{b}_{i} that respect the tree (same witness / domain builders as the time-aware GMRF tasks)
+        W = {k: v for k, v in intended_witness('gmrf', N, 'time-aware', 'batch' if batched else 'single', shape, hetero).items()
+             if k.startswith('h')}
+        W.update({'alpha': 1.3, 'beta': 0.7})
+        domain = intended_domain('integrated', N, 'time-aware', 'batch' if batched else 'single', shape, hetero)
+        W0 = dict(W)
+        rp = lambda vals: coalint_model_replay(N, shape, hetero, batched, vals, W0)  # noqa
+        extra = {'N': N, 'tree': cm.to_newick(shape), 'heterochronous': hetero, 'batched': batched}
+        tr.stubs.add('coalescent.math -> SymMath (log / lgamma of the symbolic prior parameters stay symbolic, lgamma uninterpreted)')
+        tr.assumptions.add('Gamma recurrence (trusted): lgamma(x+1) = lgamma(x) + log(x) for x > 0, used as hypothesis instances '
+                           'x = alpha .. alpha+n-2 in the rising-factorial statement of the integrated coalescent')
     else:
         _, model, n, G, perm = task
         body, fns = suffstat_body(model, n, G)
@@ -837,7 +1673,8 @@ def run_task(task, tr):
         extra = {'model': model, 'n': n, 'G': G}
     tr.fn(*fns)
     ex = Explorer(W, domain, body, tr, max_regions=300, timeout=40.0, label=label, deadline=time.time() + 900,
-                  check_defined=(kind != 'intended'))  # the 'intended' bodies return their own well-definedness goals
+                  check_defined=(kind != 'intended'),  # the 'intended' bodies return their own well-definedness goals
+                  parallel=(kind in PORTFOLIO_KINDS))
     out = ex.run()
     for s in out.region_samples[:1]:
         s['case'] = label
@@ -880,6 +1717,97 @@ def intended_tasks(tier):
     return ts
 
 
+def covariate_tasks(tier):
+    thorough = tier == 'thorough'
+    ts = []
+    sizes = [(2, 1), (3, 2), (3, 3), (4, 2)] + ([(2, 2), (2, 3), (3, 1), (4, 1), (4, 3), (4, 4), (5, 1), (5, 2), (5, 3)] if thorough else [])
+    for k, (N, P) in enumerate(sizes):
+        ts.append(('covariate', N, P, 'single', k % 2 == 0))
+        if thorough:
+            ts.append(('covariate', N, P, 'single', k % 2 == 1))
+    for N, P in ([(3, 2)] + ([(2, 1), (2, 2), (4, 2), (4, 3)] if thorough else [])):
+        for variant in COV_VARIANTS:
+            if variant != 'single':
+                ts.append(('covariate', N, P, variant, False))
+    return ts
+
+
+def ss2_tasks(tier):
+    """ties (aliasing), grids beyond the root, and the quantities the block-update operator reads"""
+    thorough = tier == 'thorough'
+    ts = []
+    op = ('via', 'operator')
+    for n in ((3, 4) if thorough else (3,)):
+        perms = list(itertools.permutations(range(n)))
+        some = [perms[0], perms[len(perms) * 2 // 3]]
+        # sampling orders for the consumer tasks: quick three of the six (the statistics themselves: all six); n = 4: one of 24
+        # (a whole-domain exploration with four heterochronous tips has 240-450 regions)
+        cons = perms if (thorough and n == 3) else (perms[0::3] + some if n == 3 else perms[:1])
+        for perm in perms:
+            last = f's{perm[-1]}'  # the youngest-sampled tip: its sampling time is > 0 wherever the tips are not all at 0
+            if n == 4 and perm not in perms[::6]:
+                continue
+            # ---- ties between a grid point and a sampling / coalescent time, between a sampling and a coalescent time
+            for other in [last] + [f'c{j}' for j in range(n - 1)]:
+                ts.append(('ss2', 'skygrid', n, 1, perm, (('alias', (('g0', other),)),)))
+                if (thorough and n == 3) or (perm in some and other != last):
+                    ts.append(('ss2', 'skygrid', n, 1, perm, (('alias', (('g0', other),)), op)))
+            for j in range(n - 1):
+                ts.append(('ss2', 'skyride', n, 0, perm, (('alias', ((last, f'c{j}'),)),)))
+            if n == 3 and (thorough or perm in some):
+                ts.append(('ss2', 'skygrid', n, 2, perm, (('alias', (('g0', 'c0'), ('g1', 'c1'))),)))  # both grid points on coalescent times
+                ts.append(('ss2', 'skygrid', n, 2, perm, (('alias', (('g0', last), ('g1', 'c0'))),)))
+            if n == 3 and (thorough or perm == perms[0]):
+                ts.append(('ss2', 'skygrid', n, 2, perm, (('alias', (('g1', 'g0'),)),)))  # two grid points at the same time
+            # ---- grid entirely beyond the root
+            for G in ((1, 2) if thorough else (2,)):  # one grid point beyond the root: regions of the whole-domain tasks below
+                ts.append(('ss2', 'skygrid', n, G, perm, (('beyond', True),)))
+                if perm in cons:
+                    ts.append(('ss2', 'skygrid', n, G, perm, (('beyond', True), op)))
+            # ---- the consumer on the whole domain (grid points inside / beyond the tree: every interleaving)
+            if perm in cons:
+                ts.append(('ss2', 'skygrid', n, 1, perm, (op,)))
+                ts.append(('ss2', 'skyride', n, 0, perm, (op,)))
+            if n == 3 and thorough:
+                ts.append(('ss2', 'skygrid', n, 2, perm, (op,)))
+            if (thorough and n == 3) or perm in some:
+                ts.append(('ss2', 'skyride', n, 0, perm, (op, ('gmrf', 'time-aware'))))  # the CLI's default skyride wiring
+        # two grid points, tips sampled together: every interleaving of the grid with the coalescent times
+        ts.append(('ss2', 'skygrid', n, 2, perms[0], (op, ('iso', True))))
+        ts.append(('ss2', 'skygrid', n, 2, perms[0], (('iso', True),)))
+    # ---- batches of two trees through __call__
+    for cfg, c in enumerate(SS2_BATCH_CONFIGS):
+        n = len(c[0])
+        if n == 4 and not thorough:
+            continue
+        bt = ('via', 'operator-batched')
+        ts.append(('ss2', 'skyride', n, 0, c[0], (bt, ('cfg', cfg))))
+        ts.append(('ss2', 'skygrid', n, 1, c[0], (bt, ('cfg', cfg))))
+        ts.append(('ss2', 'skygrid', n, 2, c[0], (bt, ('cfg', cfg))))
+        if cfg in (0, 3):
+            ts.append(('ss2', 'skyride', n, 0, c[0], (bt, ('cfg', cfg), ('gmrf', 'time-aware'))))
+    return ts
+
+
+def coalint_tasks(tier):
+    thorough = tier == 'thorough'
+    ts = []
+    for n in ((3, 4) if thorough else (3,)):
+        perms = list(itertools.permutations(range(n)))
+        for k, perm in enumerate(perms):
+            if n == 3 or k % 4 == 0:
+                ts.append(('coalint', n, perm, 'tensor'))
+            if n == 3 and (thorough or k == 0):
+                ts.append(('coalint', n, perm, 'batched'))
+    for N in ((2, 3, 4) if thorough else (2, 3)):
+        for si in range(len(_tree_shapes(N))):
+            for hetero in (False, True):
+                ts.append(('coalint-model', N, si, hetero, False))
+                if N == 2 or thorough:
+                    ts.append(('coalint-model', N, si, hetero, True))
+    return ts
+
+
 def tasks_for(tier):
     ts = []
     Ns = (2, 3, 4) if tier == 'quick' else (2, 3, 4, 5)
@@ -906,17 +1834,38 @@ def tasks_for(tier):
             ts.append(('coalint', 4, perm))
         for perm in itertools.permutations(range(3)):
             ts.append(('ss', 'skygrid', 3, 2, perm))
-    return ts
+    new = covariate_tasks(tier) + ss2_tasks(tier) + coalint_tasks(tier)
+
+    def heavy(t_):  # consumer explorations over the whole domain (most regions): started first
+        return t_[0] == 'ss2' and t_[5] == (('via', 'operator'),) and (t_[2] == 4 or t_[3] >= 1)
+
+    return [t_ for t_ in new if heavy(t_)] + ts + [t_ for t_ in new if not heavy(t_)]
 
 
 def body(chk):
-    chk.explanation = ('symbolic execution of GMRF / precision_matrix / integrated priors / sufficient statistics; the three '
-                       'separately written code paths are compared as expressions by the solver for all field vectors, '
-                       'precisions, hyper-parameters, heights and population sizes; event orderings are path regions')
+    chk.explanation = ('symbolic execution of GMRF / GMRFCovariate / precision_matrix / integrated priors / sufficient statistics and of '
+                       'the block-update operator up to the point where it hands its Newton problem over; the separately written '
+                       'code paths are compared as expressions by the solver for all field vectors, covariates, effect sizes, '
+                       'precisions, hyper-parameters, heights, grid points and population sizes; event orderings are path regions, '
+                       'exact ties are aliasing configurations (one symbol for both inputs)')
     chk.total.assumptions |= {'Gamma-integral lemma (trusted): int_0^inf t^(a-1) e^(-b t) dt = Gamma(a)/b^a; lgamma/log uninterpreted',
                               'numerical quadrature (mpmath) is used only in replays'}
     chk.total.bounds['sizes'] = ('field length 2..4 (5 thorough), n=3 taxa (4 thorough), grid <= 1 (2 thorough), shapes [] and [2] '
                                  '([3] thorough, intended-structure-matrix obligations only)')
+    chk.total.bounds['ties / grid beyond the root'] = (
+        'n = 3 all sampling orders (thorough: also n = 4, every sixth sampling order), symbolic heterochronous sampling times: '
+        'grid point == youngest sampling time, grid point == each coalescent time, youngest sampling time == each coalescent '
+        'time (skyride), two grid points on two event times / on each other (n = 3); all grid points beyond the root for 2 (thorough '
+        '1-2) grid points; each with a coverage certificate over the remaining symbolic inputs')
+    chk.total.bounds['ConstantCoalescentIntegrated'] = (
+        'n = 3 (4 thorough) with all sampling orders for float parameters, one-element-tensor parameters n = 3 all orders (n = 4 '
+        'thorough: every fourth); batch of two trees n = 3 (quick: '
+        'one pair of sampling orders); model class on a real TimeTreeModel: every tree shape with 3-4 (5 thorough) taxa, tips at 0 '
+        'or at fixed heterochronous dates, batch [2] for 3 taxa (thorough: all); alpha, beta > 0 symbolic')
+    chk.total.bounds['outside'] = (
+        'GMRFCovariate with a tree model / weights (the class cannot be given any); the operator after the hand-over to '
+        'newton_raphson (Newton iteration, Cholesky pipeline, Hastings term: C15); batches of more than two trees; the '
+        'SoftPiecewiseConstantCoalescentGrid (no sufficient statistics); numerical quadrature itself')
     pmap(run_task, tasks_for(chk.tier), chk.total)
 
 
